@@ -2,9 +2,10 @@
   Engine `auto` (C19).  One op line = one whole operation history (format: see
   harness/auto.cpp).  Output: one segment per operation, joined by '|':
     <emitted messages>;<learning,midi_cc,midi_nrpn of every slot>
-  A float that went through expf is printed as `~,x=<bits of the argument>`: the model does
-  not compute expf (the property module masks the implementation's value the same way
-  before the comparison and checks it against the property's tolerance itself).
+  A message is `<address hex>,<type string>[,<value>],#<OSC message size>`.  A value that went
+  through expf is printed as `~,x=<bits of the argument>`: the model does not compute expf
+  (the property module masks the implementation's value the same way before the comparison
+  and checks it against the property's tolerance itself).
 -/
 import RtoscModel.Auto
 import RtoscModel.AutoFloat
@@ -15,19 +16,40 @@ open Rtosc Rtosc.Auto Rtosc.Auto.IEEE
 def parseInt (s : String) : Option Int :=
   if s.startsWith "-" then (s.drop 1).toNat?.map (fun n => -(n : Int)) else s.toNat?.map (fun n => (n : Int))
 
-/-- `[-]digits[.digits]` as an exact rational -/
+/-- digits (possibly none) as a number and their count -/
+def digitsVal (cs : List Char) : Option (Nat × Nat) :=
+  if cs.all Char.isDigit then some (cs.foldl (fun a c => a * 10 + (c.toNat - 48)) 0, cs.length) else none
+
+/-- what `atof` reads from a decimal literal, exactly: `[+-]digits[.digits][(e|E)[+-]digits]`
+    with at least one digit in the significand (`5.`, `.5`, `+5`, `1e3`, `2E-2`, …) -/
 def parseDec (s : String) : Option Rat :=
-  let neg := s.startsWith "-"
-  let body := if neg then (s.drop 1).toString else s
-  match body.splitOn "." with
-  | [a] => a.toNat?.map fun n => if neg then -(n : Rat) else (n : Rat)
-  | [a, b] =>
-    match a.toNat?, b.toNat? with
-    | some n, some f =>
-      let v : Rat := (n : Rat) + (f : Rat) / ((10 ^ b.length : Nat) : Rat)
-      some (if neg then -v else v)
-    | _, _ => none
-  | _ => none
+  let cs := s.toList
+  let (neg, cs) := match cs with
+    | '-' :: r => (true, r)
+    | '+' :: r => (false, r)
+    | _ => (false, cs)
+  let sig := cs.takeWhile (fun c => c ≠ 'e' && c ≠ 'E')
+  let ex := cs.dropWhile (fun c => c ≠ 'e' && c ≠ 'E')
+  let ip := sig.takeWhile (· ≠ '.')
+  let fp := match sig.dropWhile (· ≠ '.') with
+    | [] => []
+    | _ :: r => r
+  let e10 : Option Int := match ex with
+    | [] => some 0
+    | _ :: r =>
+      let (eneg, ds) := match r with
+        | '-' :: t => (true, t)
+        | '+' :: t => (false, t)
+        | _ => (false, r)
+      if ds.isEmpty then none
+      else (digitsVal ds).map (fun (n, _) => if eneg then -(n : Int) else (n : Int))
+  match digitsVal ip, digitsVal fp, e10 with
+  | some (n, ni), some (f, nf), some e =>
+    if ni + nf = 0 then none else
+    let m : Rat := (n : Rat) + (f : Rat) / ((10 ^ nf : Nat) : Rat)
+    let v : Rat := if e ≥ 0 then m * ((10 ^ e.toNat : Nat) : Rat) else m / ((10 ^ (-e).toNat : Nat) : Rat)
+    some (if neg then -v else v)
+  | _, _, _ => none
 
 /-- atof of a metadata value: `-` = key absent -/
 def parseMeta (s : String) : Option (Option Rat) :=
@@ -42,14 +64,16 @@ def parseBits (s : String) : Option Rat :=
 def hex32 (n : Nat) : String :=
   toHex [UInt8.ofNat (n / 2 ^ 24), UInt8.ofNat (n / 2 ^ 16), UInt8.ofNat (n / 2 ^ 8), UInt8.ofNat n]
 
-def portPath (k : Nat) (nports : Nat) : Bytes :=
-  if k < nports then [47, 112, UInt8.ofNat (97 + k)] else [47, 122, 122]
+def defaultPath (k : Nat) : Bytes := [47, 112, UInt8.ofNat (97 + k)]
+def noPath : Bytes := [47, 122, 122]
 
 structure PortDecl where
   info : PortInfo Rat
   logTab : List (Rat × Rat)
+  path : Bytes
 
-def parsePort (w : String) : Option PortDecl :=
+/-- `k` = index of the port in the table (its default address is `/p<letter k>`) -/
+def parsePort (k : Nat) (w : String) : Option PortDecl :=
   match w.splitOn ":" with
   | "P" :: kind :: mn :: mx :: sc :: lm :: fl :: rest =>
     match parseMeta mn, parseMeta mx, parseMeta lm with
@@ -64,33 +88,44 @@ def parsePort (w : String) : Option PortDecl :=
       let hi : Option Rat := mx.map rnd32
       let tab : List (Rat × Rat) :=
         match rest with
-        | [a, b] =>
+        | a :: b :: _ =>
           match lo, hi, parseBits a, parseBits b with
           | some lo, some hi, some la, some lb => [(lo, la), (hi, lb)]
           | _, _, _, _ => []
         | _ => []
+      let path : Bytes := match rest with
+        | [_, _, nm] => nm.toUTF8.toList
+        | _ => defaultPath k
       if sc = "log" && tab.isEmpty && kind ≠ "T" && mn.isSome && mx.isSome then none
-      else some { info := info, logTab := tab }
+      else some { info := info, logTab := tab, path := path }
     | _, _, _ => none
   | _ => none
 
-def showVal (v : Val Rat) (viaExp : Bool) : String :=
-  match v with
-  | .none => ""
-  | .int n => "," ++ toString n
-  | .flt x => if viaExp then ",~,x=" ++ hex32 (toBits32 x) else "," ++ hex32 (toBits32 x)
+def pad4 (n : Nat) : Nat := (n + 3) / 4 * 4
+
+/-- size of the OSC message: address and `,<tag>` each NUL-terminated and padded to 4, one
+    4-byte argument for 'i' / 'f' -/
+def msgSize (m : Msg Rat) : Nat :=
+  pad4 (m.addr.length + 1) + pad4 3 + (match m.val with | .none => 0 | _ => 4)
+
+def showVal (m : Msg Rat) : String :=
+  match m.expArg with
+  | some c => ",~,x=" ++ hex32 (toBits32 c)
+  | none =>
+    match m.val with
+    | .none => ""
+    | .int n => "," ++ toString n
+    | .flt x => "," ++ hex32 (toBits32 x)
 
 def showMsg (m : Msg Rat) : String :=
-  match m.val with
-  | .none => toHex m.addr ++ "," ++ String.singleton m.ty
-  | v => toHex m.addr ++ "," ++ String.singleton m.ty ++ showVal v m.viaExp
+  toHex m.addr ++ "," ++ String.singleton m.ty ++ showVal m ++ ",#" ++ toString (msgSize m)
 
 def showState (m : Mgr Rat) : String :=
   "/".intercalate (m.slots.map fun sl => s!"{sl.learning},{sl.midiCC},{sl.midiNrpn}")
 
-def parseOp (ports : List (PortInfo Rat)) (w : String) : Option (Op Rat) :=
-  let portOf (k : Int) : Option (PortInfo Rat) := if k < 0 then none else ports[k.toNat]?
-  let pathOf (k : Int) : Bytes := if k < 0 then [47, 122, 122] else portPath k.toNat ports.length
+def parseOp (ports : List PortDecl) (w : String) : Option (Op Rat) :=
+  let portOf (k : Int) : Option (PortInfo Rat) := if k < 0 then none else ports[k.toNat]?.map (·.info)
+  let pathOf (k : Int) : Bytes := if k < 0 then noPath else (ports[k.toNat]?.map (·.path)).getD noPath
   match w.splitOn ":" with
   | ["B", s, p, l] => do
     let s ← parseInt s; let p ← parseInt p; let l ← parseInt l
@@ -107,7 +142,7 @@ def parseOp (ports : List (PortInfo Rat)) (w : String) : Option (Op Rat) :=
   | ["M", c, t, v] => do pure (.midi (← parseInt c) (← parseInt t) (← parseInt v))
   | _ => none
 
-def runOps (A : Arith Rat) (ports : List (PortInfo Rat)) : Mgr Rat → List String → List String → String
+def runOps (A : Arith Rat) (ports : List PortDecl) : Mgr Rat → List String → List String → String
   | _, [], acc => if acc.isEmpty then "-" else "|".intercalate acc.reverse
   | m, w :: ws, acc =>
     match parseOp ports w with
@@ -129,11 +164,11 @@ def stepLine (line : String) : String :=
         if ns < 1 || ns > 64 || ps < 1 || ps > 16 then "bad-op" else
         let pw := rest.takeWhile (·.startsWith "P")
         let ow := rest.dropWhile (·.startsWith "P")
-        let decls := pw.map parsePort
+        let decls := (List.range pw.length).zipWith (fun k w => parsePort k w) pw
         if decls.any Option.isNone || decls.length > 26 then "bad-op" else
         let ds := decls.filterMap id
         let A := ieee (ds.flatMap (·.logTab))
-        runOps A (ds.map (·.info)) (Mgr.init A ns ps) ow []
+        runOps A ds (Mgr.init A ns ps) ow []
       | _, _ => "bad-op"
     | _ => "bad-op"
 
